@@ -76,6 +76,25 @@ class F1Error(Exception):
     """The injected failure of a user node function."""
 
 
+GLOBAL_ARM: dict[str, int] = {}
+"""F1 triggers shared by all copies of a node function (by node name): lets a fault be armed in
+a model copy that is private to the system under test (the interface's internal model)."""
+GLOBAL_FIRED: dict[str, int] = {}
+
+
+class no_global_faults:
+    """Reference computations run with the shared F1 triggers switched off."""
+
+    def __enter__(self):
+        self.saved = dict(GLOBAL_ARM)
+        GLOBAL_ARM.clear()
+
+    def __exit__(self, *exc):
+        GLOBAL_ARM.clear()
+        GLOBAL_ARM.update(self.saved)
+        return False
+
+
 class CountingFn:
     """A node function with a call counter and an armable F1 trigger (raise on the n-th call)."""
 
@@ -89,6 +108,12 @@ class CountingFn:
 
     def __call__(self, *xs, **kw):
         self.calls += 1
+        if self.name in GLOBAL_ARM:
+            GLOBAL_ARM[self.name] -= 1
+            if GLOBAL_ARM[self.name] <= 0:
+                del GLOBAL_ARM[self.name]
+                GLOBAL_FIRED[self.name] = GLOBAL_FIRED.get(self.name, 0) + 1
+                raise F1Error(f"injected failure in node function of {self.name}")
         if self.raise_in > 0:
             self.raise_in -= 1
             if self.raise_in == 0:
